@@ -56,6 +56,10 @@ func (p c04) compare(c *fw.Ctx, inputs []string) {
 		c.Count("timeouts_skipped", 1)
 		return
 	}
+	if anyMemoryGuard(a) || anyMemoryGuard(b) {
+		c.Count("memory_guard_skipped", 1)
+		return
+	}
 	i := diffSessions(a, b)
 	if i < 0 {
 		return
@@ -67,6 +71,10 @@ func (p c04) compare(c *fw.Ctx, inputs []string) {
 	})
 	x := runSession(small, sessCfg{}, 3*time.Second)
 	y := runSession(small, sessCfg{cacheOff: true}, 3*time.Second)
+	if anyTimeout(x) || anyTimeout(y) || anyMemoryGuard(x) || anyMemoryGuard(y) {
+		c.Count("timeouts_skipped", 1) // the re-run of the (shrunk) case spent the harness's budget: nothing decided
+		return
+	}
 	j := diffSessions(x, y)
 	if j < 0 {
 		small, x, y, j = inputs, a, b, i
